@@ -95,14 +95,17 @@ func checkC12(c c12Case) (c12Verdict, bool, error) {
 		// only run for "no panic"
 		return c12Unmodelled, false, nil
 	}
-	var pats []*ref.Pattern
-	malformed, wild := false, false
+	var pats, alts []*ref.Pattern
+	malformed, wild, openClass := false, false, false
 	for _, p := range c.Patterns {
 		pt, err := ref.ParsePattern(p)
 		switch err {
 		case nil:
 			pats = append(pats, pt)
 			wild = wild || pt.Wild
+			openClass = openClass || pt.OpenClass
+			alt, _ := ref.ParsePatternAlt(p)
+			alts = append(alts, alt)
 		case ref.ErrMalformed:
 			malformed = true
 		default:
@@ -154,6 +157,18 @@ func checkC12(c c12Case) (c12Verdict, bool, error) {
 		pats = []*ref.Pattern{pt}
 	}
 	aff := ref.Affixes(pats, prefix, s)
+	if openClass && !malformed {
+		// a "[:" that begins no class: where the two readings of its "["
+		// give different answers, none is demanded
+		alt := ref.Affixes(alts, prefix, s)
+		same := len(alt) == len(aff)
+		if same && len(aff) > 0 {
+			same = alt[0] == aff[0] && alt[len(alt)-1] == aff[len(aff)-1]
+		}
+		if !same {
+			return c12Unmodelled, false, nil
+		}
+	}
 	if len(aff) == 0 {
 		if gerr != pattern.NoMatch {
 			return c12Checked, wild, fmt.Errorf("Match(%q, %s, %q): want NoMatch, got %q, %v", c.Patterns, modeName(c.Mode), c.Subject, got, gerr)
@@ -391,6 +406,57 @@ func TestC12(t *testing.T) {
 		st.Note("exhaustive: patterns of <= 3 symbols over %q x subjects of <= 3 symbols over %q x 4 modes; all pairs of patterns of <= 2 symbols over {a b * ? [ ]} x subjects of <= 3 symbols over {a b | ]} x 4 modes", palpha, salpha)
 	}
 
+	// (a‴) bracket expressions around "[:" — classes, things that only look
+	// like one, and the regular expression syntax a translation might leak
+	{
+		palpha := []string{"[", "[:", ":]", "]", `\:`, ":", "alpha", "^", "a", "*", "-"}
+		salpha := []string{"a", "l", "[", ":", "]", "s", "(", "^", "1", "-", "*"}
+		pn := 3
+		if thorough() {
+			pn = 4
+		}
+		subjects := wordsUpTo(salpha, 2)
+		pi := 0
+		var total, unm, mal int64
+		for _, body := range wordsUpTo(palpha, pn) {
+			for _, p := range []string{"[" + body + "]", body} {
+				pi++
+				if pi%nsh != sh {
+					continue
+				}
+				var nt int64
+				for _, s := range subjects {
+					for _, m := range c12Modes {
+						c := c12Case{Patterns: []string{p}, Mode: m, Subject: s}
+						v, wild, err := checkC12(c)
+						if err != nil {
+							fail(t, "C12", "match", c, "%v", err)
+						}
+						switch v {
+						case c12Unmodelled:
+							unm++
+						case c12Malformed:
+							mal++
+						default:
+							if wild && s != "" {
+								nt++
+							}
+						}
+					}
+				}
+				total += int64(len(subjects) * len(c12Modes))
+				st.EvalN(int64(len(subjects)*len(c12Modes)), nt)
+				if pi%499 == 0 {
+					st.Sample(c12Case{Patterns: []string{p}, Mode: c12Modes[pi%4], Subject: subjects[pi%len(subjects)]})
+				}
+			}
+		}
+		st.ClassN("bracket_class_lookalikes", total)
+		st.ClassN("unmodelled_no_panic_only", unm)
+		st.ClassN("malformed_pattern", mal)
+		st.Note("exhaustive: \"[\"+body+\"]\" and body for bodies of <= %d tokens over %q x subjects of <= 2 symbols over %q x 4 modes", pn, palpha, salpha)
+	}
+
 	// (a'') long patterns (regular expression engines limit repeat counts and program sizes)
 	if sh == 0 {
 		long := 0
@@ -449,6 +515,7 @@ func TestC12(t *testing.T) {
 					rapid.SampledFrom([]string{"[:alpha:]", "[:digit:]", "[:alnum:]", "[:upper:]", "[:lower:]", "[:space:]", "[:blank:]", "[:punct:]", "[:xdigit:]", "[:cntrl:]", "[:print:]", "[:graph:]"}),
 					rapid.SampledFrom([]string{`\]`, `\\`, `\-`, `\[`, `\!`, `\^`, `\a`, `\.`}),
 					rapid.SampledFrom([]string{"-", "[", "c-a", "[:foo:]", "[.a.]", "[=a=]"}),
+					rapid.SampledFrom([]string{"[:", ":]", ":", `\:`, "[:^alpha:]", "[:alpha", "[:a", `[\:alpha:]`, "[:*", "[:?", `[:\-`, "[:ALPHA:]", "[: alpha:]", "[:alpha :]", "[::]"}),
 				).Draw(t, "item"))
 			}
 			if rapid.IntRange(0, 15).Draw(t, "open") != 0 {
@@ -461,7 +528,7 @@ func TestC12(t *testing.T) {
 		return strings.Join(rapid.SliceOfN(atom, 0, 7).Draw(t, "atoms"), "")
 	})
 	subjGen := rapid.Custom(func(t *rapid.T) string {
-		return strings.Join(rapid.SliceOfN(rapid.SampledFrom([]string{"a", "b", "c", "é", "日", "\uFFFD", "\U0001F600", "\u0301", "\x00", "x", "y", "0", "9", "A", "Z", " ", "\n", "\t", ".", "+", "(", ")", "|", "{", "}", "^", "$", "-", "!", "]", "[", "*", "?", `\`, "#", "~", "/", ":"}), 0, 8).Draw(t, "subj"), "")
+		return strings.Join(rapid.SliceOfN(rapid.SampledFrom([]string{"a", "b", "c", "é", "日", "\uFFFD", "\U0001F600", "\u0301", "\x00", "x", "y", "0", "9", "A", "Z", " ", "\n", "\t", ".", "+", "(", ")", "|", "{", "}", "^", "$", "-", "!", "]", "[", "*", "?", `\`, "#", "~", "/", ":", "s", "l", "p", "h", "1"}), 0, 8).Draw(t, "subj"), "")
 	})
 	modeGen := rapid.SampledFrom(append(append([]uint{}, c12Modes...), uint(pattern.Prefix), uint(pattern.Suffix), uint(pattern.Prefix|pattern.Smallest|pattern.Largest), uint(pattern.Suffix|pattern.Smallest|pattern.Largest), uint(pattern.Prefix|pattern.Suffix)))
 	prop := func(rt *rapid.T) {
